@@ -100,7 +100,35 @@ fn execute(docs: &[(Vec<u8>, ReaderCfg)], feed: Feed, opts: &[Options]) -> &'sta
     res.unwrap_or("panic")
 }
 
+/// watchdog against non-termination: the case being executed is published here; a background thread ends the
+/// process (after writing the case down as a `hang`) when one case runs longer than the limit
+static CURRENT: std::sync::Mutex<Option<(u64, Value)>> = std::sync::Mutex::new(None);
+
+fn start_watchdog(limit_s: u64, out: Option<String>) {
+    std::thread::spawn(move || {
+        let mut last: (u64, std::time::Instant) = (u64::MAX, std::time::Instant::now());
+        loop {
+            std::thread::sleep(std::time::Duration::from_millis(500));
+            let cur = CURRENT.lock().unwrap().clone();
+            if let Some((idx, case)) = cur {
+                if idx != last.0 {
+                    last = (idx, std::time::Instant::now());
+                } else if last.1.elapsed().as_secs() >= limit_s {
+                    let mut c = case.clone();
+                    c["class"] = json!("hang");
+                    if let Some(p) = &out {
+                        let _ = std::fs::write(p, format!("{}\n", c));
+                    }
+                    println!("{}", json!({"kind": "hostile", "hang": c}));
+                    std::process::exit(3);
+                }
+            }
+        }
+    });
+}
+
 pub fn run(a: &Args) {
+    start_watchdog(a.num("case-limit", 20), a.get("mismatches"));
     let mut r = Rng::new(a.num("seed", 1));
     let n = a.num("n", 10000) as usize;
     let log_each = a.get("log-each");
@@ -156,6 +184,7 @@ pub fn run(a: &Args) {
             d.0.hash(&mut h);
         }
         distinct.insert(h.finish());
+        *CURRENT.lock().unwrap() = Some((*executed as u64, json!({"kind": "hostile", "how": kind, "feed": format!("{:?}", feed), "docs": docs_json(&docs)})));
         let o = execute(&docs, feed, &opts);
         *executed += 1;
         *outcomes.entry(o).or_default() += 1;
